@@ -344,6 +344,66 @@ def r3_for_chain(text):
             return text, hits
 
 
+def r3b_for_desugar(text):
+    """for PAT in EXPR BODY  ->  { let mut verif_itN = EXPR; loop { match verif_itN.next() { Some(PAT) => BODY, None => break } } }
+    (the language's own desugaring of `for`, with the iterator obtained by the stand-in's `into_iter`-free form:
+    EXPR must already be an iterator, or a reference whose stand-in type has `next`).  `continue`/`break` keep their meaning."""
+    hits = 0
+    while True:
+        toks, match = _toks(text)
+        for i, t in enumerate(toks):
+            if t.kind == "ident" and t.text == "for" and (i == 0 or toks[i - 1].text in ("{", "}", ";")):
+                j = i + 1
+                while j < len(toks) and not (toks[j].kind == "ident" and toks[j].text == "in"):
+                    if toks[j].text in ("(", "[", "{"):
+                        j = match[j] + 1
+                    else:
+                        j += 1
+                k = j + 1
+                while k < len(toks) and toks[k].text != "{":
+                    if toks[k].text in ("(", "["):
+                        k = match[k] + 1
+                    else:
+                        k += 1
+                pat = text[toks[i + 1].start:toks[j - 1].end]
+                expr = text[toks[j + 1].start:toks[k - 1].end]
+                body = text[toks[k].start:toks[match[k]].end]
+                rep = ("{ let mut verif_it%d = verif_iter(%s); loop { match verif_it%d.next() { Some(%s) => %s, None => break } } }"
+                       % (hits, expr, hits, pat, body))
+                text = text[:t.start] + rep + text[toks[match[k]].end:]
+                hits += 1
+                break
+        else:
+            return text, hits
+
+
+def r20_question_mark(text):
+    """statement `EXPR?;`  ->  `match EXPR { Ok(v) => v, Err(e) => return Err(From::from(e)) };`
+    (the language's desugaring of `?` on a Result; this Verus forgets the From conversion of the sugared form)"""
+    hits = 0
+    while True:
+        toks, match = _toks(text)
+        for i, t in enumerate(toks):
+            if t.text == "?" and i + 1 < len(toks) and toks[i + 1].text == ";":
+                s0 = i - 1
+                while s0 >= 0:
+                    tx = toks[s0].text
+                    if tx in (")", "]", "}"):
+                        s0 = match[s0] - 1
+                        continue
+                    if tx in (";", "{", "}"):
+                        break
+                    s0 -= 1
+                s0 += 1
+                expr = text[toks[s0].start:toks[i - 1].end]
+                rep = "match %s { Ok(verif_v) => verif_v, Err(verif_e) => return Err(From::from(verif_e)) }" % expr
+                text = text[:toks[s0].start] + rep + text[toks[i].end:]
+                hits += 1
+                break
+        else:
+            return text, hits
+
+
 def r4_cfg_resolve(text, debug_assertions):
     """Resolve #[cfg(debug_assertions)] / #[cfg(not(debug_assertions))] on the following
     field, statement or expression-statement for the stated profile."""
@@ -578,6 +638,12 @@ class FnItem:
         hits["R1"] = h
         body, h = r3_for_chain(body)
         hits["R3"] = h
+        if sp.get("desugar_question"):
+            body, h = r20_question_mark(body)
+            hits["R20"] = h
+        if sp.get("desugar_for"):
+            body, h = r3b_for_desugar(body)
+            hits["R3b"] = h
         body, h = r6_bool_or_assign(body)
         hits["R6"] = h
         if sp.get("math_inc"):
@@ -597,8 +663,9 @@ class FnItem:
         expected = sp.get("rules", {})
         if sp.get("auto_helper"):
             expected = hits
-        # R1 / R2 only remove or guard logging: their site counts are recorded, not pinned
-        strict = lambda d: {k: v for k, v in d.items() if k not in ("R1", "R2")}
+        # R1 / R2 only remove or guard logging, R3/R3b/R6/R7/R14/R20 are the language's own desugarings: their site
+        # counts are recorded, not pinned.  Pinned: rewrites that abstract something (R4 profile, R9 counters, clock ...)
+        strict = lambda d: {k: v for k, v in d.items() if k not in ("R1", "R2", "R3", "R3b", "R6", "R7", "R14", "R20")}
         if strict(hits) != strict(expected):
             raise Undecided("%s::%s: rewrite sites changed: expected %r, found %r" % (self.rel, self.name, expected, hits))
         # signature: named return, drop pub(crate) noise is fine in verus
